@@ -205,11 +205,20 @@ void ScriptVM::loadTop(EventSystem& eventSystem, Listener* listener)
     const char* pVarName = varName.c_str();
 #endif
 
-    if (!eventName || !executeSetter(eventSystem, listener, eventName))
+    try
     {
-        // just set the variable
-        ScriptVariable& pTop = m_Stack.GetTop();
-        listener->Vars()->SetVariable(variable, std::move(pTop));
+        if (!eventName || !executeSetter(eventSystem, listener, eventName))
+        {
+            // just set the variable
+            ScriptVariable& pTop = m_Stack.GetTop();
+            listener->Vars()->SetVariable(variable, std::move(pTop));
+        }
+    }
+    catch (...)
+    {
+        // the value was consumed even though the setter refused it
+        if constexpr (!noTop) m_Stack.Pop();
+        throw;
     }
 
     if constexpr (!noTop) m_Stack.Pop();
@@ -1008,9 +1017,10 @@ bool ScriptVM::Process(ScriptContext& context, uinttime_t interruptTime)
             }
             catch (...)
             {
-                m_Stack.Pop();
-
-                if (!eventCalled) {
+                if (!eventCalled)
+                {
+                    // loadTop was not reached: drop the value and step over the operands here
+                    m_Stack.Pop();
                     skipField();
                 }
 
